@@ -10,6 +10,7 @@ import plan  # noqa: E402
 
 NA = {
     'C01': "compilability is a verdict of rustc's parser/type checker on rendered tokens, and rendering (quote/syn/heck) does not return under CBMC even on concrete input (measured >25 min); no clause is left that a solver decides",
+    'C04': 'not built: it needs a second generated program (origin types with serde+schemars derives) exchanging documents with the generated types, and the heart of the property - data-carrying enums under the four tagging modes - deserializes through serde\'s private Content buffering, which the E2 token model does not reach; the flat remainder coincides with what C02/C03 already check on hand-written schemas of the same shapes',
     'C07': 'graph algorithm over heap maps (BTreeMap<TypeId,TypeEntry>, type_to_id keyed by a 19-variant enum) indexed by symbolic ids: even a 1-node instance exceeds the cap (measured >15 min), and a concrete graph leaves nothing for a solver to quantify over',
     'C08': 'every clause runs through util::sanitize = heck casing + unicode-ident tables + syn::parse_str, which CBMC does not finish even on concrete 4-byte inputs (measured >25 min)',
     'C12': 'quantifies over process runs, hash seeds and JSON key order of whole-program token rendering; there is no input domain to encode and the output path is quote!',
